@@ -853,4 +853,43 @@ func main() {
 		d := []int{0, 1, 1, 2, 4}[c.Rng.Intn(5)]
 		emit(c, caseIn{Kind: "hist", Dist: d, Items: its, Inj: pickInjection(c, its, len(cs), d), Commits: cs})
 	}
+	// wide octopus merges under hibernation (harness/synth.GenOctopusShape): an octopus of at least d+3 parents makes
+	// insertHibernateBoot emit ONE boot action that covers several branches; several merges per history, arms
+	// idle for different lengths, chains after the merge, 1..3 roots; pipelines with a hibernateable item
+	for i := c.Count(500, 12000); i > 0; i-- {
+		oo := synth.OctoOpts{Roots: 1 + c.Rng.Intn(3), Merges: 1 + c.Rng.Intn(2), MinPar: 3, MaxPar: 7,
+			MaxArm: 1 + c.Rng.Intn(3), MaxTail: 1 + c.Rng.Intn(3), ExtraHead: c.Rng.Intn(4) == 0, SubMerge: c.Rng.Intn(4) == 0}
+		d := 1 + c.Rng.Intn(4)
+		if c.Rng.Intn(2) == 0 {
+			k := 4 + c.Rng.Intn(4)
+			oo.MinPar, oo.MaxPar = k, k
+			d = k - 3 - c.Rng.Intn(2)
+			if d < 1 {
+				d = 1
+			}
+			if d > 4 {
+				d = 4
+			}
+		}
+		shape := synth.GenOctopusShape(c.Rng, oo)
+		ts := randomTimes(c, len(shape))
+		cs := make([]commitSpec, len(shape))
+		for j, ps := range shape {
+			cs[j] = commitSpec{ID: j, Time: ts[j], Parents: append([]int{}, ps...)}
+		}
+		its := pickPipeline(c)
+		// make sure Hibernate/Boot calls are observed: at least one hibernateable item
+		anyHib := false
+		for _, s := range its {
+			anyHib = anyHib || s.Hib
+		}
+		if !anyHib {
+			its[c.Rng.Intn(len(its))].Hib = true
+		}
+		inj := injection{Kind: "none"}
+		if c.Rng.Intn(5) == 0 {
+			inj = pickInjection(c, its, len(cs), d)
+		}
+		emit(c, caseIn{Kind: "octo", Dist: d, Items: its, Inj: inj, Commits: cs})
+	}
 }
